@@ -21,6 +21,24 @@ int fstm() { int t = 0; if (v > 0) { t = 1; } return t; }
 int floop() { int t = 0; for (i : int[0,1]) { t += va[i]; } return t; }
 int fkstm() { int t = 0; for (i : int[0,1]) { t += ka[i]; } return t; }
 """
+# functions that return a constant and read {V} in exactly one syntactic position (all their writes are to their own locals)
+READ_POSITIONS = {
+    "subscript-of-assignment-target": "int la[2]; la[{V} - 2] = 1; return 1;",
+    "subscript-under-field-of-target": "St ls[2]; ls[{V} - 2].f = 1; return 1;",
+    "subscript-under-nested-field-of-target": "struct {{ St in; }} lo[2]; lo[{V} - 2].in.f = 1; return 1;",
+    "second-subscript-of-target": "int lm[2][2]; lm[0][{V} - 2] = 1; return 1;",
+    "subscript-of-compound-assignment-target": "int la[2]; la[{V} - 2] += 1; return 1;",
+    "subscript-of-incremented-element": "int la[2]; la[{V} - 2]++; return 1;",
+    "condition-of-if": "if ({V} > 0) {{ }} return 1;",
+    "condition-of-while": "int t = 0; while (t < {V}) {{ t++; }} return 1;",
+    "bound-of-for": "int t; for (t = 0; t < {V}; t++) {{ }} return 1;",
+    "argument-of-discarded-call": "fpar({V}); return 1;",
+    "condition-of-inline-if-target": "int a; int b; ({V} > 0 ? a : b) = 1; return 1;",
+    "assertion": "assert({V} > 0); return 1;",
+    "initialiser-of-unused-local": "int t = {V}; return 1;",
+    "right-hand-side-into-field": "St ls[2]; ls[0].f = {V}; return 1;",
+}
+GDECL += "".join("int rp%d() { %s }\nint rk%d() { %s }\n" % (n, b.format(V="v"), n, b.format(V="k")) for n, b in enumerate(READ_POSITIONS.values()))
 
 # (id, expression, depends on a mutable variable?)
 EXPRS = [
@@ -33,7 +51,8 @@ EXPRS = [
     ("fn-var", "fv()", True), ("fn-var-chain2", "fv2()", True), ("fn-var-chain3", "fv3()", True), ("fn-var-arg", "fpar(v)", True),
     ("fn-var-in-statement", "fstm() + 1", True), ("fn-var-in-loop", "floop() + 1", True), ("meta-var", "mv + 1", True),
     ("const-index-by-var", "ka[v - 2]", True),
-]
+] + [("fn-reads-var-in:" + nm, "rp%d()" % n, True) for n, nm in enumerate(READ_POSITIONS)] + \
+    [("fn-reads-const-in:" + nm, "rk%d()" % n, False) for n, nm in enumerate(READ_POSITIONS)]
 
 
 def tpl(decl="", params=None):
